@@ -518,6 +518,10 @@ def main(tier):
     rep.attempt(guardloop.check, rep, 'CRC', r'^crc/|adler32', 5)
     import shfrows
     rep.attempt(shfrows.check, rep, {'crc', 'crc_copy'}, 380)
+    import deadvdef
+    rep.attempt(deadvdef.check, rep, 'CRC', r'^crc/', 3500)
+    import foldconst
+    rep.attempt(foldconst.check, rep, {'crc', 'crc_copy'}, 900)
     rep.attempt(bounds.check_len_width, rep, {'crc', 'crc_copy', 'adler'}, 'CRC', 31)
     import stridecover
     rep.attempt(stridecover.check, rep, 'CRC', {'crc', 'crc_copy', 'adler'}, 80)
